@@ -109,7 +109,7 @@ fn asn_set(asn: u32) -> ResourceSet {
     ResourceSet::from_strs(&format!("AS{asn}"), "", "").unwrap_or_default()
 }
 
-fn canon_prefix(p: &str) -> String {
+pub fn canon_prefix(p: &str) -> String {
     // canonical textual form as rpki prints addresses
     if let Some((a, l)) = p.split_once('/') {
         if let Ok(ip) = std::net::IpAddr::from_str(a) {
